@@ -10,7 +10,7 @@ import sys
 
 from engine import Check, tlc_ok, validate_traces, MachineryError
 
-COMPS = ['', '.', '..', 'a', 'b', 'a.b', 'a b']
+COMPS = ['', '.', '..', 'a', 'b', 'a.b', 'a b', '..a']
 ROOTS = ['srcdir', 'builddir', 'absolute', 'prefix', 'bindir', 'mandir']
 
 
